@@ -1,2 +1,82 @@
 //! Verification harnesses compiled into heathcliff::batch_encoder as child module `verif_v`.
 #![allow(unused, dead_code, non_snake_case)]
+use super::*;
+
+#[cfg(kani)]
+mod proofs {
+    use super::*;
+    use crate::verif_v::lits;
+    use crate::util::verif_v::galois as gv;
+
+    const T: u64 = 17;
+    fn sym_slots() -> [u64; 4] { let a: [u8; 4] = kani::any(); kani::assume(a[0] < 17 && a[1] < 17 && a[2] < 17 && a[3] < 17); [a[0] as u64, a[1] as u64, a[2] as u64, a[3] as u64] }
+    fn pow3(e: usize, m: usize) -> usize { let mut r = 1usize; let mut i = 0; while i < e { r = (r * 3) % m; i += 1; } r }
+
+    // @harness id=C11 tier=quick unwind=8 timeout=2400 fs=4096
+    // @desc BatchEncoder::new builds the documented index map (slot i of row 0 -> bit-reversed (3^i - 1)/2, row 1 -> bit-reversed (2N - 3^i - 1)/2, a permutation); decode(encode(v)) == v for every slot vector, shorter inputs are zero-padded; encode_polynomial reduces mod t and decode_polynomial inverts it
+    // @bounds BFV N=4, t=17 (batching), q={97,113}; all slot vectors over Z_17; input lengths 4 and 2
+    // @funcs BatchEncoder::new, BatchEncoder::encode, BatchEncoder::decode, BatchEncoder::encode_polynomial, BatchEncoder::decode_polynomial, NTTTables::{ntt_negacyclic_harvey,inverse_ntt_negacyclic_harvey} (plain modulus tables)
+    // @stubs HeContext::get_context_data -> linear search over the literal chain; alloc::sync::Arc::drop_slow -> no-op
+    #[kani::proof]
+    #[kani::stub(crate::context::HeContext::get_context_data, crate::context::verif_v::get_context_data_stub)]
+    #[kani::stub(alloc::sync::Arc::drop_slow, crate::verif_v::arc_drop_slow_noop)]
+    fn c11_roundtrip_and_index_map() {
+        let ctx = lits::ctx_bfv_n4_2p1();
+        let be = BatchEncoder::new(ctx.clone());
+        assert!(be.slots == 4 && be.matrix_reps_index_map.len() == 4);
+        let i: usize = kani::any(); kani::assume(i < 2);
+        let pos = pow3(i, 8);
+        assert!(be.matrix_reps_index_map[i] == crate::util::reverse_bits_u64(((pos - 1) >> 1) as u64, 2) as usize);
+        assert!(be.matrix_reps_index_map[i + 2] == crate::util::reverse_bits_u64(((8 - pos - 1) >> 1) as u64, 2) as usize);
+        let m = &be.matrix_reps_index_map;
+        assert!(m[0] != m[1] && m[0] != m[2] && m[0] != m[3] && m[1] != m[2] && m[1] != m[3] && m[2] != m[3] && m[0] < 4 && m[1] < 4 && m[2] < 4 && m[3] < 4);
+        let v = sym_slots();
+        let short: bool = kani::any();
+        let p = if short { be.encode_new(&v[..2]) } else { be.encode_new(&v) };
+        let d = be.decode_new(&p);
+        let k: usize = kani::any(); kani::assume(k < 4);
+        kani::cover!(short && v[1] != 0);
+        assert!(p.coeff_count() == 4 && p.data().len() == 4 && p.data()[k] < T && d.len() == 4);
+        assert!(d[k] == if short && k >= 2 { 0 } else { v[k] });
+        // polynomial (coefficient) encoding
+        let w: [u64; 3] = kani::any();
+        let pp = be.encode_polynomial_new(&w);
+        assert!(pp.coeff_count() == 3 && pp.data()[1] == w[1] % T);
+        let back = be.decode_polynomial_new(&pp);
+        assert!(back.len() == 3 && back[2] == w[2] % T);
+        std::mem::forget(be); std::mem::forget(ctx);
+    }
+
+    // @harness id=C11 tier=quick unwind=8 timeout=2400 fs=4096
+    // @desc the polynomial automorphism for rotation step s (Galois element get_elt_from_step(s)) acts on the decoded 2 x N/2 matrix as a cyclic LEFT rotation of both rows by s, and the element for step 0 (2N-1) swaps the two rows
+    // @bounds BFV N=4, t=17; all slot vectors; steps -1, +1 (all steps with 0 < |s| < N/2) and the column swap
+    // @funcs BatchEncoder::encode, BatchEncoder::decode, GaloisTool::apply, GaloisTool::get_elt_from_step
+    // @stubs HeContext::get_context_data -> linear search over the literal chain; alloc::sync::Arc::drop_slow -> no-op
+    #[kani::proof]
+    #[kani::stub(crate::context::HeContext::get_context_data, crate::context::verif_v::get_context_data_stub)]
+    #[kani::stub(alloc::sync::Arc::drop_slow, crate::verif_v::arc_drop_slow_noop)]
+    fn c11_galois_is_rotation() {
+        let ctx = lits::ctx_bfv_n4_2p1();
+        let be = BatchEncoder::new(ctx.clone());
+        let v = sym_slots();
+        let p = be.encode_new(&v);
+        let gt = gv::mk_galois_tool(2, 4, std::sync::RwLock::new(vec![vec![], vec![], vec![], vec![]]));
+        let tm = crate::modulus::verif_v::mk_modulus(17, true);
+        let c: u8 = kani::any();
+        let step: isize = match c { 0 => 1, 1 => -1, _ => 0 };
+        let g = gt.get_elt_from_step(step);
+        let mut out = [0u64; 4];
+        gt.apply(p.data(), g, &tm, &mut out);
+        let rp = crate::text::verif_v::mk_plaintext(4, out.to_vec(), crate::PARMS_ID_ZERO, 1.0);
+        let d = be.decode_new(&rp);
+        kani::cover!(c == 1 && v[0] != v[1]);
+        // rows: [v0 v1] / [v2 v3]; row length 2
+        match c {
+            0 | 1 => { assert!(d[0] == v[1] && d[1] == v[0] && d[2] == v[3] && d[3] == v[2]); }   // rotation by +-1 on rows of length 2
+            _ => { assert!(d[0] == v[2] && d[1] == v[3] && d[2] == v[0] && d[3] == v[1]); }
+        }
+        std::mem::forget(be); std::mem::forget(ctx);
+    }
+
+    #[cfg(test)] include!("/verif/.build/playback/batch_encoder_v.rs");
+}
